@@ -30,7 +30,8 @@ ASSUMPTIONS = [
 
 KEYS = ["displayName", "guestOS", "scsi0:0.fileName", "memsize", "ETHERNET0.address", "annotation", "uuid.bios", ".encoding", "numvcpus",
         "ide1:0.deviceType", "vmci0.present", "x.y.Z", "scsi0:1.fileName", "sata0:0.fileName", "ide1:0.fileName", "nvme0:0.fileName"]
-VALUE_ALPHABET = "abcXYZ0189 =#:/\\-_.,;%+()[]{}'äß€\U0001F98A"
+# incl. characters str.splitlines() breaks on although only "\n" ends a line of the dictionary syntax
+VALUE_ALPHABET = "abcXYZ0189 =#:/\\-_.,;%+()[]{}'äß€\U0001F98A\u2028\x85\x0c\x1c"
 
 
 def budget(tier):
@@ -44,7 +45,8 @@ def entries(draw, lo, hi):
     out = []
     for k in keys:
         v = draw(st.text(alphabet=VALUE_ALPHABET, max_size=draw(st.sampled_from([0, 3, 12, 40]))))
-        v = v.strip(' "')
+        while v != v.strip().strip(' "'):
+            v = v.strip().strip(' "')  # the syntax cannot carry white space (of any kind) or quotes at the ends of a value
         out.append([k, v])
     return out
 
@@ -82,7 +84,8 @@ def vmx_spec(draw, tier, combo=None):
         "outer": draw(entries(0, 4)), "inner": inner, "pairs": pairs, "correct": correct, "data_cipher": data_cipher,
         "data_key": draw(st.binary(min_size=bx.KEY_SIZES[data_cipher], max_size=bx.KEY_SIZES[data_cipher])).hex(),
         "data_iv": draw(st.binary(min_size=16, max_size=16)).hex(),
-        "inner_style": {"crlf": draw(st.booleans()), "sep": draw(st.sampled_from([" = ", "=", " =", "= "])), "quote": draw(st.booleans())},
+        "inner_style": {"crlf": draw(st.booleans()), "sep": draw(st.sampled_from([" = ", "=", " =", "= "])), "quote": draw(st.booleans()),
+                        "no_final_newline": draw(st.sampled_from([False, False, True]))},
         "outer_style": {"crlf": draw(st.booleans()), "sep": draw(st.sampled_from([" = ", "="])), "quote": True},
         "shuffle_outer": draw(st.booleans()), "chance_padding": chance_padding,
         "wrong": draw(st.lists(st.text(max_size=8), min_size=1, max_size=2)),
